@@ -164,8 +164,6 @@ func (b *assignmentBuilder) structFieldAndStructGettersAndFields(lhs bmodel.Node
 
 	var a gmodel.Assignment
 	var err error
-	// To prevent logging "no assignment for d.NestedData"…
-	nested := false
 
 	handler := func(rhs bmodel.Node) (done bool) {
 		if !b.isStructFieldAccessible(rhsStruct, rhs.ObjName()) ||
@@ -195,7 +193,6 @@ func (b *assignmentBuilder) structFieldAndStructGettersAndFields(lhs bmodel.Node
 
 		if util.IsStructType(lhs.ExprType()) &&
 			util.IsStructType(rhs.ExprType()) {
-			nested = true
 			nestStruct := gmodel.NestStruct{}
 			if util.IsPtr(lhs.ExprType()) {
 				nestStruct.InitExpr = fmt.Sprintf("%v = %v{}", lhs.AssignExpr(), typeName(b.pkg, b.imports, lhs.ExprType()))
@@ -208,9 +205,10 @@ func (b *assignmentBuilder) structFieldAndStructGettersAndFields(lhs bmodel.Node
 				a = nestStruct
 			}
 		}
-		// A same-named candidate that does not fit does not end the search: under
-		// :case:off another candidate may bear the name.
-		return a != nil || err != nil || nested
+		// A same-named candidate that does not fit (or a struct none of whose members
+		// can be reached) does not end the search: under :case:off another candidate
+		// may bear the name, and otherwise the field is reported as unmatched.
+		return a != nil || err != nil
 	}
 
 	if opts.Getter && opts.Rule == gmodel.MatchRuleName {
@@ -222,7 +220,7 @@ func (b *assignmentBuilder) structFieldAndStructGettersAndFields(lhs bmodel.Node
 
 	if opts.Rule == gmodel.MatchRuleName {
 		bmodel.IterateStructFields(rhsStruct, handler)
-		if a != nil || err != nil || nested {
+		if a != nil || err != nil {
 			return a, err
 		}
 	}
